@@ -148,6 +148,9 @@ func (w *W) RunBehaviour(cases []*BCase) ([]*BOutcome, error) {
 }
 
 // Expect is the model's expectation for one op.
+// NotContains marks an element of MErr.Contains / Expect.Err as "the error text must NOT contain the rest".
+const NotContains = "\x00not:"
+
 type Expect struct {
 	Text   string   // canonical text (value)
 	Err    []string // expected error substrings
@@ -271,6 +274,12 @@ func CompareSession(exp []Expect, res []ProbeResult) (bad int, msg string, compa
 				return i, fmt.Sprintf("expected a panic containing %q, observed %s", e.Err, obs), compared, false
 			}
 			for _, s := range e.Err {
+				if rest, neg := strings.CutPrefix(s, NotContains); neg {
+					if strings.Contains(r.Panic, rest) {
+						return i, fmt.Sprintf("expected a panic that does not contain %q, observed %s", rest, obs), compared, false
+					}
+					continue
+				}
 				if !strings.Contains(r.Panic, s) {
 					return i, fmt.Sprintf("expected a panic containing %q, observed %s", e.Err, obs), compared, false
 				}
@@ -283,6 +292,12 @@ func CompareSession(exp []Expect, res []ProbeResult) (bad int, msg string, compa
 				return i, fmt.Sprintf("expected an error containing %q, observed %s", e.Err, obs), compared, false
 			}
 			for _, s := range e.Err {
+				if rest, neg := strings.CutPrefix(s, NotContains); neg {
+					if strings.Contains(r.Err, rest) {
+						return i, fmt.Sprintf("expected an error that does not contain %q, observed %s", rest, obs), compared, false
+					}
+					continue
+				}
 				if !strings.Contains(r.Err, s) {
 					return i, fmt.Sprintf("expected an error containing %q, observed %s", e.Err, obs), compared, false
 				}
